@@ -34,6 +34,10 @@ type isoJob struct {
 
 var isoHandlers = map[string]func(c *Ctx, raw json.RawMessage){}
 
+// isoOOMIsViolation: a worker that exhausts its memory limit is a violation (C15: reading back
+// one's own output) rather than an unjudged input (C11: arbitrary bytes, by the property's text).
+var isoOOMIsViolation bool
+
 const isoFlushEvery = 8
 
 func runWorker(jobFile string) {
@@ -166,7 +170,7 @@ func runIsolated(c *Ctx, handler string, cases []interface{}, class func(i int) 
 				}
 				site := fatalSite(stderr.String())
 				mu.Lock()
-				if strings.Contains(kind, "out_of_memory") || strings.Contains(kind, "cannot_allocate") {
+				if !isoOOMIsViolation && (strings.Contains(kind, "out_of_memory") || strings.Contains(kind, "cannot_allocate")) {
 					// asking for more memory than the harness limit is counted, not judged
 					c.AddCount("over_memory_limit", 1)
 					c.Eval(1) // it was run; the dead worker's own count is lost
